@@ -288,6 +288,8 @@ func mkResp(r *common.Rand, kind string, q feegen.Quote, outTotal uint64) respon
 		u := mkU(r, 3*s+outTotal)
 		u.Script = common.Hex(feegen.Inscription(feegen.Fill(r, 20), []byte("text/plain"), []byte("hi")))
 		return response{Kind: "batch", Tag: kind, Utxos: []utxo{u}}
+	case "zerovalue": // a UTXO worth nothing (legal) next to one worth something: every UTXO returned is spent
+		return response{Kind: "batch", Tag: kind, Utxos: []utxo{mkU(r, 0), mkU(r, s+outTotal/3)}}
 	case "exact": // filled in by the caller
 	}
 	return response{Kind: "batch", Tag: kind}
@@ -373,7 +375,30 @@ func main() {
 	if thorough {
 		n = 6000
 	}
-	all := append(append([]string{}, kinds...), "nilscript", "nonp2pkh", "inscription", "exact")
+	all := append(append([]string{}, kinds...), "nilscript", "nonp2pkh", "inscription", "exact", "zerovalue", "zerovalue")
+	// large batches: the number of inputs crosses 252 / 253 (its varint grows) within a batch, between two batches, and
+	// with a batch of more than 253; every UTXO is worth a little more than it costs, so each batch leaves a deficit
+	for bi, sizes := range [][]int{{126, 126, 3, 3, 3}, {200, 52, 1, 1, 1}, {252, 1, 1, 1}, {253, 1, 1}, {100, 100, 100, 3}, {260, 2, 2}} {
+		q := feegen.Quotes[(bi+int(c.Seed))%len(feegen.Quotes)]
+		st := startTx(r, 0, q)
+		if len(st.Outs) > 0 {
+			st.Outs[0].Sats = 40000000
+		}
+		out := feegen.SumOut(st).Uint64()
+		total := 0
+		for _, n := range sizes {
+			total += n
+		}
+		var hist []response
+		for _, n := range sizes {
+			var us []utxo
+			for i := 0; i < n; i++ {
+				us = append(us, mkU(r, scale(q)+out/uint64(total+40)+uint64(r.Intn(9))))
+			}
+			hist = append(hist, response{Kind: "batch", Tag: "large", Utxos: us})
+		}
+		fundCase("large-batches", st, q, hist, true)
+	}
 	for k := 0; k < n; k++ {
 		q := feegen.Quotes[r.Intn(len(feegen.Quotes))]
 		s := startTx(r, r.Intn(6), q)
@@ -420,6 +445,6 @@ func main() {
 		}
 		fundCase(kind, s, q, hist, hyp)
 	}
-	c.Stats.Rule = "exhaustive supplier histories of length 0..4 (thorough 0..6) over the response kinds {empty batch, one under-funding UTXO, one over-funding UTXO, 2..3 UTXOs, ErrNoUTXO (wrapped), other error} (thorough: again to length 4 with a batch carrying a 31/33/0-byte txid in the middle as a seventh kind), each with a start transaction (no inputs / a small unsigned input / nothing at all / already covered / data output and a signed input / three payments) and a quote (9 quotes: 1/20..50 sat/byte, unequal std/data) in rotation; UTXO values scale with the cost of an input at the quote; plus random histories of length 0..6 adding nil / non-P2PKH / inscription locking scripts, bad txids and a UTXO worth the exact deficit +-1, missing fee type, zero denominator, nil previous script in the start transaction, outputs near 2^64. A used-up history answers ErrNoUTXO. distinct = distinct (start tx, quote, consumed part of the history); non-trivial = the supplier was called at least once"
+	c.Stats.Rule = "exhaustive supplier histories of length 0..4 (thorough 0..6) over the response kinds {empty batch, one under-funding UTXO, one over-funding UTXO, 2..3 UTXOs, ErrNoUTXO (wrapped), other error} (thorough: again to length 4 with a batch carrying a 31/33/0-byte txid in the middle as a seventh kind), each with a start transaction (no inputs / a small unsigned input / nothing at all / already covered / data output and a signed input / three payments) and a quote (9 quotes: 1/20..50 sat/byte, unequal std/data) in rotation; UTXO values scale with the cost of an input at the quote; plus six histories of large batches (the input count crossing 252/253 inside a batch, between batches, and by a batch of 260), random histories of length 0..6 adding zero-value UTXOs, nil / non-P2PKH / inscription locking scripts, bad txids and a UTXO worth the exact deficit +-1, missing fee type, zero denominator, nil previous script in the start transaction, outputs near 2^64. A used-up history answers ErrNoUTXO. distinct = distinct (start tx, quote, consumed part of the history); non-trivial = the supplier was called at least once"
 	c.Finish()
 }
